@@ -13,7 +13,7 @@ ItemB == {[El("b", tp, o[1], o[2]) EXCEPT !.nillable = nl] : tp \in {"string", "
          {[El("g", "string", 1, 1) EXCEPT !.ref = TRUE]}                     \* reference to a global element
 ItemC == {[k |-> "none"]} \cup {Grp(k, o[1], o[2], <<El("c", "int", 1, 1), El("d", "string", m, 1)>>) :
                                   k \in {"seq", "choice"}, o \in Occs, m \in {0, 1}}
-AttrVariants == 1..5
+AttrVariants == 1..6
 \* the particle first (slots 1-5), then the parts that do not affect the content model
 Slots == << {"seq", "choice", "all"}, Occs, ItemA, ItemB, ItemC,
             {NONE, "urn:t"}, {"qualified", "unqualified"}, BOOLEAN, AttrVariants, {"complex", "simpleContent"}, 0..MaxDocIdx >>
@@ -46,7 +46,11 @@ Corpus == {
   <<"seq", <<1, 1>>, El("a", "DefInt", 0, 2), El("b", "Kid", 0, 1), NoC, "urn:t", "qualified", FALSE, 3, "complex">>,
   <<"choice", <<0, U>>, El("a", "long", 1, 1), El("b", "int", 1, 1), NoC, "urn:t", "qualified", FALSE, 1, "complex">>,              \* int | long: two built-ins, one Python type
   <<"choice", <<1, U>>, El("a", "long", 1, 1), El("b", "int", 1, 1), CD("choice", <<1, 1>>, 1), NONE, "unqualified", TRUE, 2, "complex">>,
-  <<"seq", <<1, 1>>, El("a", "boolean", 1, 1), El("b", "int", 1, 1), NoC, "urn:t", "qualified", TRUE, 4, "simpleContent">> }
+  <<"seq", <<1, 1>>, El("a", "boolean", 1, 1), El("b", "int", 1, 1), NoC, "urn:t", "qualified", TRUE, 4, "simpleContent">>,
+  <<"seq", <<1, 1>>, El("a", "int", 1, 1), El("b", "int", 1, 1), NoC, "urn:t", "qualified", TRUE, 6, "simpleContent">>,             \* attributes value / content / choice
+  <<"seq", <<1, 1>>, El("a", "int", 1, 1), El("b", "int", 1, 1), NoC, NONE, "unqualified", FALSE, 6, "simpleContent">>,
+  <<"choice", <<0, U>>, El("a", "int", 1, 1), El("b", "string", 1, 1), CD("choice", <<1, 1>>, 1), "urn:t", "qualified", FALSE, 6, "complex">>,
+  <<"seq", <<1, 1>>, El("a", "IntOrStr", 0, U), Nil(El("b", "Kid", 0, 1)), NoC, NONE, "unqualified", TRUE, 6, "complex">> }
 InitCorpus == \E c \in Corpus, i \in 0..MaxDocIdx : parts = Append(c, i)
 
 TopOcc == IF parts[1] = "all" THEN <<IF parts[2][1] = 0 THEN 0 ELSE 1, 1>> ELSE parts[2]
@@ -60,6 +64,10 @@ Attrs == CASE parts[9] = 1 -> <<>>
            [] parts[9] = 4 -> << [name |-> "v", tp |-> "string", use |-> "optional", default |-> NONE, fixed |-> "1"],
                                  [name |-> "o", tp |-> "Color", use |-> "optional", default |-> NONE, fixed |-> NONE] >>
            [] parts[9] = 5 -> << [name |-> "q", tp |-> "decimal", use |-> "optional", default |-> NONE, fixed |-> NONE] >>
+           \* attributes NAMED like the fields the generator invents itself (the text field `value`, `content`, `choice`)
+           [] parts[9] = 6 -> << [name |-> "value", tp |-> "string", use |-> "optional", default |-> NONE, fixed |-> NONE],
+                                 [name |-> "content", tp |-> "int", use |-> "optional", default |-> NONE, fixed |-> NONE],
+                                 [name |-> "choice", tp |-> "boolean", use |-> "required", default |-> NONE, fixed |-> NONE] >>
 SchemaOf == [tns |-> parts[6], form |-> parts[7], named |-> parts[8], kind |-> parts[10],
              root |-> Root, attrs |-> Attrs]
 Docs == DocsOf(Root)
